@@ -248,6 +248,12 @@ PATTERNS = [
     (r'[A-Z][a-z]+', ['Cat', 'Dog'], ['cat', 'CAT', 'cAt', 'Cat7']),
     (r'[a-z]+[0-9]?', ['cat', 'cat7'], ['Cat', 'CAT7', '7cat']),
     (r'Item [A-C]', ['Item A', 'Item C'], ['item a', 'Item D', 'ITEM A']),
+    # the author's own group numbers, conditionals and inline flags mean what they mean in the pattern as written
+    (r'(\()?[0-9]+(?(1)\))', ['12', '(12)', '(7)'], ['(12', '12)', '()']),
+    (r'(a|b)\1', ['aa', 'bb'], ['ab', 'ba', 'a', 'aaa']),
+    (r'(x)(y)\2', ['xyy'], ['xyx', 'xy', 'xyyy']),
+    (r'(?i)yes|no', ['yes', 'YES', 'No'], ['nope', 'y', 'yesno']),
+    (r'(?P<q>["\']).*(?P=q)', ['"a"', "'b c'"], ['"a\'', 'a', '"a']),
 ]
 
 
@@ -268,7 +274,9 @@ def check_pattern(ctx, rng):
         flags = rng.choice(list(flagsets()))
         if not flags['case_sensitive'] and rng.random() < 0.7:
             sub = sub.upper() if rng.random() < 0.5 else sub.title()
-    cfg = {'validation_pattern': pattern, 'explain_validation': mode, 'invalid_msg': 'BAD FORMAT'}
+    # the author's own refusal text is shown as written, whatever characters it holds
+    inv = rng.choice(['BAD FORMAT', 'BAD FORMAT', 'Enter a set such as {1, 2, 3}', 'use {} or {0} here', '100% wrong %s %d', 'BAD {{x}} {length}', u'n\u00e3o \u2717'])
+    cfg = {'validation_pattern': pattern, 'explain_validation': mode, 'invalid_msg': inv}
     cfg.update(flags)
     if rng.random() < 0.15:
         cfg['debug'] = True
@@ -313,7 +321,7 @@ def check_pattern(ctx, rng):
     if not matches:
         ctx.count('pattern_refused')
         key = 'C18:pattern:partial_match_accepted:' + kind if partial else 'C18:pattern:nonmatch_not_refused'
-        check_refused(ctx, out, mode, r'BAD FORMAT', key + (':accept_any' if accept_any else ':answers'), wit, cfg.get('wrong_msg', ''))
+        check_refused(ctx, out, mode, re.escape(inv), key + (':accept_any' if accept_any else ':answers'), wit, cfg.get('wrong_msg', ''))
         return
     eff_min = max(min_length, 1) if cfg.get('accept_nonempty') else min_length      # accept_nonempty: at least one character
     if accept_any and len(cs) < eff_min:
